@@ -485,7 +485,7 @@ func c20Table(p *Prog, r *Report) {
 				}
 			}
 			if !okc {
-				r.Viol("C20.b", fi.Key+"#lookup", p.pos(c), "environment variable name is not a constant")
+				r.Undecided("C20.b", fi.Key+"#lookup", p.pos(c), "the name of the environment variable is not a constant at this lookup (a table of options driven by one loop): not a form the per-setting rule follows")
 				return true
 			}
 			var scope ast.Node = ifs.Body
@@ -540,7 +540,7 @@ func c20Table(p *Prog, r *Report) {
 					continue
 				}
 				if !okc {
-					r.Viol("C20.b", fi.Key+"#lookup", p.pos(c), "environment variable name is not a constant")
+					r.Undecided("C20.b", fi.Key+"#lookup", p.pos(c), "the name of the environment variable is not a constant at this lookup (a table of options driven by one loop): not a form the per-setting rule follows")
 					continue
 				}
 				cl.ifs = ifs
@@ -593,7 +593,7 @@ func c20Table(p *Prog, r *Report) {
 			}
 			name, okc := constStr(info, c.Args[0])
 			if !okc {
-				r.Viol("C20.b", fi.Key+"#lookup", p.pos(c), "environment variable name is not a constant")
+				r.Undecided("C20.b", fi.Key+"#lookup", p.pos(c), "the name of the environment variable is not a constant at this lookup (a table of options driven by one loop): not a form the per-setting rule follows")
 				return true
 			}
 			// the statement of the enclosing block that holds the call
